@@ -133,3 +133,15 @@ func DeliverLateAnswers() int
 // have finished. Scheduler(n) switches scheduling on for go statements.
 func Parallel(fs ...func())
 func Scheduler(budget int)
+
+// Snapshot returns a deep copy of *ptr (maps, slices and pointers are
+// followed; library objects, channels and locks are shared).
+func Snapshot(ptr interface{}) interface{}
+
+// SameAs: *ptr is deeply equal to the snapshot taken earlier (channels,
+// library objects and lock state are not compared).
+func SameAs(snapshot, ptr interface{}) bool
+
+// Quiesce lets every other scheduled thread run until it has finished or is
+// blocked for good.
+func Quiesce()
